@@ -235,6 +235,13 @@ TRANSLATED = [
     (B, 'Convention.time_coordinate', 'trans_timeunits', ['Ems.Gen.tuTimeCoordGeneric', 'Ems.Gen.tuTimeCoordOwners'], ['Ems.C17.src_time_coordinate_generic', 'Ems.C17.src_time_coordinate_owners']),
     (S, 'ShocStandard.time_coordinate', 'trans_timeunits', ['Ems.Gen.tuTimeCoordShocStandard'], ['Ems.C17.src_time_coordinate_shoc']),
     (S, 'ShocSimple.time_coordinate', 'trans_timeunits', ['Ems.Gen.tuTimeCoordShocSimple'], ['Ems.C17.src_time_coordinate_shoc']),
+    # ---- C07 / C06: UGRID mask construction and polygons (harness/trans_ugridsrc.py -> Gen/UgridSrc.lean)
+    (U, 'buffer_faces', 'trans_ugridsrc', ['Ems.Gen.UgridSrc.bufferFaces'], ['Ems.C07Src.buffer_faces_src']),
+    (U, 'mask_from_face_indexes', 'trans_ugridsrc', ['Ems.Gen.UgridSrc.maskFromFaceIndexes'], ['Ems.C07Src.mask_from_face_indexes_src']),
+    (U, 'UGrid.make_clip_mask', 'trans_ugridsrc', ['Ems.Gen.UgridSrc.makeClipMask'], ['Ems.C07Src.make_clip_mask_src', 'Ems.C07Src.make_clip_mask_src_kept']),
+    (U, 'UGrid._make_polygons', 'trans_ugridsrc', ['Ems.Gen.UgridSrc.ugridPolygons'], ['Ems.C06Src.ugrid_polygons_src']),
+    # ---- C02 / C06: holes keep their slot (harness/trans_holessrc.py -> Gen/HolesSrc.lean)
+    (UT, 'make_polygons_with_holes', 'trans_holessrc', ['Ems.Gen.HolesSrc.holesSrc'], ['Ems.C02.holes_generated']),
     # ---- earlier phases (harness/pipelines.py -> Gen/Pipelines.lean; harness/tables.py -> Gen/Tables.lean)
     (G, 'CFGrid1D._make_polygons', 'pipelines', ['Ems.Gen.cf1dPolygonPoints'], ['Ems.C06.cf1d_pipeline_spec']),
     (G, 'CFGrid2D._make_polygons', 'pipelines', ['Ems.Gen.cf2dPolygonPoints'], ['Ems.C06.cf2d_pipeline_spec']),
